@@ -743,7 +743,8 @@ class C13(core.Check):
         out = []
         store = tempfile.mkdtemp(prefix='c13x', dir=os.path.join(core.WORK, 'C13'))
         flags = {}
-        ev = {'go2': threading.Event(), 'r2_has_lock': threading.Event()}
+        ev = {'go2': threading.Event(), 'r2_has_lock': threading.Event(), 'holding': threading.Event(),
+              'late_done': threading.Event()}
 
         class Root(object):
             @cherrypy.expose
@@ -771,6 +772,28 @@ class C13(core.Check):
                 return b'r1'
 
             @cherrypy.expose
+            def hold(self):
+                sess = cherrypy.session
+                sess.acquire_lock()
+                flags['holder_in_cs'] = True
+                ev['holding'].set()
+                ev['late_done'].wait(2.0)              # holds the lock longer than the other request's lock_timeout
+                flags['holder_in_cs'] = False
+                sess['h'] = 1
+                return b'hold'
+
+            @cherrypy.expose
+            def late(self):
+                sess = cherrypy.session
+                try:
+                    sess.acquire_lock()                # lock_timeout 0.4 s: must raise LockTimeout, not return
+                    flags['late_entered_while_held'] = bool(flags.get('holder_in_cs'))
+                    sess['l'] = 1
+                finally:
+                    ev['late_done'].set()
+                return b'late'
+
+            @cherrypy.expose
             def r2(self):
                 sess = cherrypy.session                # the id was looked up in before_request_body
                 ev['go2'].wait(10)
@@ -787,7 +810,10 @@ class C13(core.Check):
                     conf['tools.sessions.storage_path'] = store
                     conf['tools.sessions.lock_timeout'] = 20
                 app = wsgi.make_app(Root(), {'/': conf, '/r1': {'tools.sessions.locking': 'explicit'},
-                                             '/r2': {'tools.sessions.locking': 'explicit'}})
+                                             '/r2': {'tools.sessions.locking': 'explicit'},
+                                             '/hold': {'tools.sessions.locking': 'explicit'},
+                                             '/late': {'tools.sessions.locking': 'explicit',
+                                                       'tools.sessions.lock_timeout': 0.4}})
 
                 def get(path, sid=None, box=None):
                     r = wsgi.call(app, 'GET', path, [] if sid is None else [('Cookie', 'session_id=' + sid)])
@@ -837,6 +863,26 @@ class C13(core.Check):
                                                        'critical section' if flags.get('r2_entered_while_r1_inside')
                                                        else 'or R1 never finished'),
                             case={'k': 'delete-under-lock'}, observed={'flags': dict(flags), 'r1': b1, 'r2': b2}))
+                # (c) file backend: a request whose lock_timeout runs out while another one holds the session
+                if backend == 'file' and not out:
+                    flags.clear()
+                    sid = [v for k, v in get('/first')['headers'] if k.lower() == 'set-cookie'][0].split(';')[0].split('=', 1)[1]
+                    bh, bl = [], []
+                    th = threading.Thread(target=get, args=('/hold', sid, bh), daemon=True)
+                    th.start()
+                    ev['holding'].wait(10)
+                    tl = threading.Thread(target=get, args=('/late', sid, bl), daemon=True)
+                    tl.start()
+                    tl.join(15)
+                    th.join(15)
+                    self.count('thread probe: lock_timeout runs out while the session is held (file)')
+                    if flags.get('late_entered_while_held'):
+                        out.append(core.Violation(
+                            'two-holders:after-lock-timeout',
+                            'file backend: a request with lock_timeout 0.4 s asked for the lock of session %s while another '
+                            'request held it; after the timeout acquire_lock() returned and the request went on inside the '
+                            'locked section (answers: holder %r, late %r)' % (sid, bh, bl),
+                            case={'k': 'lock-timeout-while-held'}, observed={'flags': dict(flags), 'holder': bh, 'late': bl}))
                 import logging
                 try:
                     cherrypy.engine.unsubscribe('graceful', app.log.reopen_files)
